@@ -220,7 +220,7 @@ func (m *docker1SignedManifest) SetOrig(origIn any) error {
 		// TODO: error?
 		orig.MediaType = mediatype.Docker1ManifestSigned
 	}
-	mj, err := json.Marshal(orig)
+	mj, err := orig.MarshalJSON()
 	if err != nil {
 		return err
 	}
